@@ -525,6 +525,7 @@ type callsRun struct {
 	calls   []*callState
 	byToken map[uint64]*callState
 	running []int // handlers executing per server
+	load    []int64 // lower bound of the request memory held by executing handlers per server
 	maxRunning []int
 	pendingCalls int
 	midPacketTimeouts atomic.Int32
@@ -614,8 +615,20 @@ func (r *callsRun) handler(si int) HandlerFunc {
 			r.sim.Count("probe.worker_pool_full")
 		}
 		r.checkReqMem(si, "handler entry")
+		// The same limit judged without the server's own counter: every executing handler still holds its request
+		// (released only when the response is sent), and a request takes at least max(body, RequestBufSize). If the
+		// sum over executing handlers exceeds the limit, excess load was admitted - whatever the counter says.
+		take := int64(max(len(want), r.sc.Servers[si].ReqBuf))
+		r.load[si] += take
+		limit := int64(r.servers[si].opts.RequestMemoryLimit) // the effective limit (the options clamp small values)
+		if r.load[si] > limit {
+			r.fail("C39/request-memory-limit-exceeded", fmt.Sprintf("server %d: requests held by executing handlers add up to at least %d bytes > RequestMemoryLimit %d (admitted without waiting)", si, r.load[si], limit))
+		}
+		if r.load[si]+int64(r.sc.Servers[si].ReqBuf) > limit {
+			r.sim.Count("probe.admitted_load_at_limit")
+		}
 		r.mu.Unlock()
-		defer func() { r.mu.Lock(); r.running[si]--; r.mu.Unlock() }()
+		defer func() { r.mu.Lock(); r.running[si]--; r.load[si] -= take; r.mu.Unlock() }()
 		hctx.ResponseExtra = mkRespExtra(cs.spec.RespExtra)
 		// A handler may change hctx.RequestExtra (every proxy adds and clears bits); the response must still be
 		// masked by the flags the client sent.
@@ -1230,6 +1243,7 @@ func (r *callsRun) body(s simI) {
 	}
 	r.mu.Lock()
 	r.running = make([]int, len(sc.Servers))
+	r.load = make([]int64, len(sc.Servers))
 	r.maxRunning = make([]int, len(sc.Servers))
 	r.srvClosed = make([]bool, len(sc.Servers))
 	r.cliClosed = make([]bool, len(sc.Clients))
